@@ -169,7 +169,7 @@ func (e *Eng) encodeFunction(fn *ssa.Function, con *Contract) (res *FnResult) {
 			if ca.Ord != 0 {
 				ord = fmt.Sprintf("#%d", ca.Ord)
 			}
-			c.oblige(Item{Guard: "true", Formula: "false", Name: res.Key + fmt.Sprintf("/at-call:%s%s:%s:call-exists", ca.Callee, ord, ca.Clause.Label), Class: "assert",
+			c.oblige(Item{Guard: "true", Formula: "false", Name: res.Key + fmt.Sprintf("/at-call:%s%s:%s:call-exists", ca.Callee, ord, ca.Clause.Label), Class: "callsite", // (not "assert": never assumed by later obligations)
 				Pos: token.Position{Filename: con.File, Line: ca.Clause.Line}, Text: "the function calls " + ca.Callee + ord + " (the call-site assertion '" + ca.Clause.Label + "' is about that call)"})
 		}
 	}
